@@ -141,6 +141,7 @@ R17.5 the header regions of the two templates are identical up to the template's
 		}
 	}
 	checkReadFile(c)
+	configResolutionGuard(c, "R17.6")
 }
 
 func flagKey(p *TPath) string {
